@@ -41,6 +41,7 @@ typedef struct {
   V1 Fd, Fc;                                        /* system filter acting on defects / corrections */
   V1 S_pre, S_post, S_peak;                         /* smoothers (linear) */
   bool has_pre, has_post, has_peak;                 /* which smoothers the level has */
+  V1 S_crs; bool has_crs;                           /* coarse solver (linear) of this level, if any */
   V1 R, P;                                          /* transfer operator of this level: restriction to / prolongation from the next coarser level */
   bool ghost;                                       /* transfer operator is a ghost (coarser level lives on another process) */
 } LVL1;
@@ -48,6 +49,7 @@ typedef LVL1 SELF_T;
 #define lvl (*lvlp)
 #define lvl_f (*lvl_fp)
 #define lvl_c (*lvl_cp)
+#define lvl_crs (*lvl_crsp)
 #define MAXLV 8
 LVL1 LV[MAXLV + 1];          /* the level hierarchy: index 0 = finest */
 Index top_level, crs_level, hier_size;
